@@ -88,6 +88,9 @@ func (e *s1end) SimSend(b []byte, m unixsocket.Msg) error {
 	if !e.wdeadline.IsZero() && !time.Now().Before(e.wdeadline) {
 		return os.ErrDeadlineExceeded
 	}
+	if len(m.Fds) > 253 {
+		return syscall.EINVAL // SCM_MAX_FD: what sendmsg(2) answers to a longer SCM_RIGHTS list
+	}
 	p := &s1pkt{data: append([]byte(nil), b...)}
 	for _, fd := range m.Fds {
 		// descriptors in transit get unique high numbers (per direction), so that what each
